@@ -99,6 +99,17 @@ template<class Cfg>
 bool Exec<Cfg>::ser_save(Op const& op) {
 	bool              handled = true;
 	std::vector<char> bytes;
+	if constexpr(HAS_D0) {
+		if(op.da == 0) {
+			Arr0& a = pool0_.at(op.a);
+			{
+				OpScope s;
+				save_object(bytes, op.arch, a);
+			}
+			file_bytes_[op.file] = bytes;
+			return true;
+		}
+	}
 	if(op.var == 0 || op.var == 2) {
 		handled = with_dim(op.da, [&](auto Dc) {
 			constexpr int D = decltype(Dc)::value;
@@ -144,6 +155,14 @@ bool Exec<Cfg>::ser_load(Op const& op) {
 	std::vector<char>& bytes   = file_bytes_[op.file];
 	MFile const&       f       = M.files[op.file];
 	if(chunk_r_ == 1) probe(P_STREAM_CHUNK1);
+	if constexpr(HAS_D0) {
+		if(op.da == 0) {
+			Arr0&   a = pool0_.at(op.a);
+			OpScope s;
+			load_object(bytes, f.arch, chunk_r_, a);
+			return true;
+		}
+	}
 	if(f.is_array) {
 		handled = with_dim(op.da, [&](auto Dc) {
 			constexpr int D = decltype(Dc)::value;
